@@ -322,6 +322,11 @@ def search(ctx, boost=1, focus=()):
     rng = np.random.default_rng(ctx.seed + 1016)
     thorough = ctx.tier == "thorough"
     n = (500 if thorough else 120) * boost
+    # known finding D13, pinned: BackgroundSubtraction(9.4, radius_outer=14).get_mask((5, 15))
+    p = {"pattern": {"kind": "background_subtraction", "radius": 9.4, "radius_outer": 14.0, "search": 18.8}, "shape": [5, 15],
+         "other_shapes": []}
+    msgs = run_case("builtin", p)
+    ctx.oracle_case("builtin", p, msgs, key=classify("builtin", p, msgs) if msgs else None, nontrivial=True)
     for k in range(n):
         pat = impl.pattern_params(rng, kinds=("circular", "radial_gradient", "background_subtraction", "rgbs"),
                                   rmin=1.5, rmax=15.0)
